@@ -200,6 +200,18 @@ def rule_a(ctx: Context, R: Reporter):
         facts = [(_resolved(m, t, nd), p) for (t, p) in facts]
         if not ok:
             ok, why = _guard_forced(facts, recv, inits, fit_attrs)
+        if not ok and fit_nodes:
+            # `if refit: fit(...)` followed by an unconditional predict: only the paths that by-pass the fit need the guard
+            from ..util import path_facts_avoiding
+
+            pf = path_facts_avoiding(m.node, nd, [f.id for f in fit_nodes])
+            if pf is None:
+                ok, why = True, "every path passes a fit"
+            elif pf:
+                facts2 = [(_resolved(m, t, nd), p) for (t, p) in pf] + facts
+                ok, why = _guard_forced(facts2, recv, inits, fit_attrs)
+                if ok:
+                    facts = facts2
         if not ok:
             # (iii) an earlier pipeline step establishes FITTED under the same gating facts
             ok, why = _pipeline_establishes(ctx, cl, users, sc, m, facts, inits, fit_attrs)
